@@ -36,7 +36,7 @@ package majority
 //@             && result.(MajorityHeuristicParams).DrawResolution == params.(MajorityHeuristicParams).DrawResolution
 
 //@ func (*MajorityBiasListener).RankCriteriaAscending
-//@   property C15 C07 C11
+//@   property C15 C07 C11 C16 C18 C19
 //@   refines model.BiasListener.RankCriteriaAscending with validParams=mjValid, coversId=mjCovers, imp=mjImportance
 //@   ensures [importance_is_weight] forall k int :: 0 <= k && k < len(*result) ==> (*result)[k].Weight == params.MethodParameters.(MajorityHeuristicParams).Weights[(*result)[k].Id]
 
